@@ -7,6 +7,7 @@ import Gowarc.Driver.BlockH
 import Gowarc.Driver.RevisitH
 import Gowarc.Driver.WriterH
 import Gowarc.Driver.NameH
+import Gowarc.Model.RecordId
 import Gowarc.Driver.CutsH
 import Gowarc.Driver.ResH
 import Gowarc.Driver.CrashH
@@ -39,6 +40,10 @@ def handleLine (line : String) : String :=
       | "xpolf" => "impl-only"   -- transient reader faults: judged on the implementation alone
       | "writer" => handleWriter args
       | "namegen" => handleNamegen args
+      | "uuid" => (match args with
+        | [r] => (match RecordId.recordIdField (hx r) with | some v => toHex v | none => "err")
+        | _ => "bad-args")
+      | "uuidconc" => "impl-only" -- C02_id_injective: distinct draws give distinct ids; the repeat oracle judges the draws
       | "cuts" => handleCuts args
       | "stream" => handleCuts args
       | "res" => handleRes args
